@@ -16,6 +16,9 @@ type Tok struct {
 	S    string
 	NoLT bool // a line terminator in front of this token would change the program (restricted production)
 	Semi bool // a statement-terminating semicolon that automatic semicolon insertion may supply
+	// the expression that ends with this token cannot be called, indexed or tagged (a postfix update, an arrow function
+	// with a block body): a ( [ or template on the next line starts a new statement
+	EndsUncallable bool
 }
 
 // Out is a generated fragment: its tokens and the expected String() of the node.
@@ -276,9 +279,10 @@ func (g *G) node(level int) (Out, int) {
 		g.Ops[op]++
 		x := g.simpleTarget()
 		if g.chance("prefix", 2) {
-			return Out{cat(tk(op), x.Toks), "(" + op + x.Str + ")"}, LUnary
+			// UpdateExpression: ++ UnaryExpression (it may be the base of **)
+			return Out{cat(tk(op), x.Toks), "(" + op + x.Str + ")"}, LUpdate
 		}
-		return Out{cat(x.Toks, []Tok{{S: op, NoLT: true}}), "(" + x.Str + op + ")"}, LUpdate
+		return Out{cat(x.Toks, []Tok{{S: op, NoLT: true, EndsUncallable: true}}), "(" + x.Str + op + ")"}, LUpdate
 	case k <= 16:
 		return g.chain()
 	}
@@ -853,6 +857,7 @@ func (g *G) arrow() Out {
 	var bodyStr string
 	if g.chance("blockbody", 2) {
 		b := g.body()
+		b.Toks[len(b.Toks)-1].EndsUncallable = true
 		toks = append(toks, b.Toks...)
 		bodyStr = b.Str
 	} else {
